@@ -25,11 +25,6 @@ Definition mtyped2 (t : T) (g : ghost) (m : N) : Prop :=
 Definition TM2 (t : T) (g : ghost) : Prop :=
   forall m mo, tget t m = Some mo -> o_opcode mo = aml_pOpMethod -> mtyped2 t g m.
 
-Lemma TM2_TM s g : TM2 (p_tree s) g -> TM NoX s g.
-Proof.
-  intros H m mo Hm Hop _. destruct (H m mo Hm Hop) as (a0 & a1 & rest & a0o & a1o & v & K1 & K2 & (P0 & _) & K4 & K5 & (P1 & _)).
-  exists a0, a1, rest, a0o, a1o, v. repeat (split; [assumption|]). assumption.
-Qed.
 
 Definition PEND (s : pstate) (g : ghost) : Prop :=
   forall x o, glive g x -> tget (p_tree s) x = Some o -> isflag s x = true ->
@@ -210,3 +205,229 @@ Proof.
     { rewrite <- Hf2. symmetry. apply (isflag_same s (with_tree s (tset t2 n (set_value v))) x' o o2 Ho Ho2 So). reflexivity. }
     destruct (HP x' o Hl Ho Hf) as (Hpar & Hnp). split; [eapply has_parent_move; eauto|]. destruct So as (E1 & _). rewrite E1. exact Hnp.
 Qed.
+
+(** ---- the CONCRETE typing of Method objects ([TM3]): the first child is a CHILDLESS pOpIntNamePath object with the name-path row, the
+    second a pOpBytePrefix object with its row and a number.  It implies [TM2] and the typing [TM NoX] of the deferred pass, and - unlike
+    [TM2] - it is an invariant of every pass of ParseAML (the last two passes: [TM3_move], [TM3_upd]). ---- *)
+Lemma row_facts_np (o : Obj) : o_infoIndex o = npIdx -> nodefer o /\
+  (forall op fl af, opInfo (o_infoIndex o) = Some (op, fl, af) -> hasFlag fl aml_pOpFlagNamed = false).
+Proof.
+  intros E. split.
+  - intros op fl af H. rewrite E in H. vm_compute in H. injection H as _ <- <-. split; [reflexivity|]. intros k Hk.
+    assert (Hc : k = 0 \/ k = 1 \/ k = 2 \/ k = 3 \/ k = 4 \/ k = 5 \/ k = 6 \/ k = 7) by lia.
+    destruct Hc as [->|[->|[->|[->|[->|[->|[->| ->]]]]]]]; vm_compute; discriminate.
+  - intros op fl af H. rewrite E in H. vm_compute in H. injection H as _ <- _. reflexivity.
+Qed.
+Lemma row_facts_bp (o : Obj) : o_infoIndex o = bpIdx -> nodefer o /\
+  (forall op fl af, opInfo (o_infoIndex o) = Some (op, fl, af) -> hasFlag fl aml_pOpFlagNamed = false).
+Proof.
+  intros E. split.
+  - intros op fl af H. rewrite E in H. vm_compute in H. injection H as _ <- <-. split; [reflexivity|]. intros k Hk.
+    assert (Hc : k = 0 \/ k = 1 \/ k = 2 \/ k = 3 \/ k = 4 \/ k = 5 \/ k = 6 \/ k = 7) by lia.
+    destruct Hc as [->|[->|[->|[->|[->|[->|[->| ->]]]]]]]; vm_compute; discriminate.
+  - intros op fl af H. rewrite E in H. vm_compute in H. injection H as _ <- _. reflexivity.
+Qed.
+Lemma np_plain (o : Obj) : o_opcode o = aml_pOpIntNamePath -> o_infoIndex o = npIdx -> plain o.
+Proof. intros Hop E. destruct (row_facts_np o E) as (A & B). split; [exact A|]. split; [exact B|]. rewrite Hop. split; discriminate. Qed.
+Lemma bp_plain (o : Obj) : o_opcode o = aml_pOpBytePrefix -> o_infoIndex o = bpIdx -> plain o.
+Proof. intros Hop E. destruct (row_facts_bp o E) as (A & B). split; [exact A|]. split; [exact B|]. rewrite Hop. split; discriminate. Qed.
+
+Definition mtyped3 (t : T) (g : ghost) (m : N) : Prop :=
+  exists a0 a1 rest a0o a1o v, kids g m = a0 :: a1 :: rest /\
+    tget t a0 = Some a0o /\ o_opcode a0o = aml_pOpIntNamePath /\ o_infoIndex a0o = npIdx /\ kids g a0 = [] /\
+    tget t a1 = Some a1o /\ o_opcode a1o = aml_pOpBytePrefix /\ o_infoIndex a1o = bpIdx /\ o_value a1o = Some (VNum v).
+
+Definition TM3 (t : T) (g : ghost) : Prop :=
+  forall m mo, tget t m = Some mo -> o_opcode mo = aml_pOpMethod -> mtyped3 t g m.
+
+Lemma TM3_TM2 t g : TM3 t g -> TM2 t g.
+Proof.
+  intros H m mo Hm Hop. destruct (H m mo Hm Hop) as (a0 & a1 & rest & a0o & a1o & v & K1 & K2 & K3 & K4 & _ & K6 & K7 & K8 & K9).
+  exists a0, a1, rest, a0o, a1o, v. split; [exact K1|]. split; [exact K2|].
+  split; [apply np_plain; assumption|]. split; [exact K6|]. split; [exact K9|]. apply bp_plain; assumption.
+Qed.
+
+Lemma TM3_move : Kmove TM3.
+Proof.
+  intros s g par x target pre post t2 HT HK Hkp Hlt Hne (to & Hto & Htn) Hprev g2 HT2 Hk2p Hk2t Hk2o Hpf m mo2 Hm2 Hop2.
+  destruct (pframe_inv _ _ _ _ Hpf Hm2) as (mo & Hm & (E1 & _)).
+  assert (Hop : o_opcode mo = aml_pOpMethod) by congruence.
+  destruct (HK m mo Hm Hop) as (a0 & a1 & rest & a0o & a1o & v & K1 & K2 & K3 & K4 & K5 & K6 & K7 & K8 & K9).
+  assert (Ha0t : a0 <> target) by (intros ->; assert (a0o = to) by congruence; subst; contradiction).
+  assert (Ha0p : a0 <> par) by (intros ->; rewrite K5 in Hkp; destruct pre; discriminate).
+  destruct (proj2 Hpf _ _ K2) as (a0o2 & K2' & (F1 & F2 & _)).
+  destruct (proj2 Hpf _ _ K6) as (a1o2 & K6' & (G1 & G2 & _ & _ & _ & _ & _ & G8)).
+  assert (Hkm : exists rest', kids g2 m = a0 :: a1 :: rest').
+  { destruct (N.eq_dec m par) as [->|Hmp].
+    - rewrite Hk2p. rewrite K1 in Hkp. destruct pre as [|p0 [|p1 pre'']].
+      + exfalso. destruct Hprev as [(pre' & E)|(pre' & P & l1 & E & _)]; destruct pre'; discriminate.
+      + exfalso. cbn [app] in Hkp. injection Hkp as E0 E1' _. subst p0 x.
+        destruct Hprev as [(pre' & E)|(pre' & P & l1 & E & HkP)].
+        * destruct pre' as [|q pre']; [injection E as E; apply Ha0t; exact E|destruct pre'; discriminate].
+        * destruct pre' as [|q pre']; [injection E as E; subst P; rewrite K5 in HkP; destruct l1; discriminate|destruct pre'; discriminate].
+      + cbn [app] in Hkp. injection Hkp as E0 E1' _. subst p0 p1. cbn [app]. eexists. reflexivity.
+    - destruct (N.eq_dec m target) as [->|Hmt].
+      + rewrite Hk2t, K1. cbn [app]. eexists. reflexivity.
+      + rewrite (Hk2o m Hmp Hmt). exists rest. exact K1. }
+  destruct Hkm as (rest' & Hkm).
+  exists a0, a1, rest', a0o2, a1o2, v. split; [exact Hkm|]. split; [exact K2'|]. split; [congruence|]. split; [congruence|].
+  split; [rewrite (Hk2o a0 Ha0p Ha0t); exact K5|]. split; [exact K6'|]. split; [congruence|]. split; [congruence|congruence].
+Qed.
+
+Lemma TM3_upd : Kupd TM3.
+Proof.
+  intros t g p o f HR HK Ho Hop Hnm Hnn m mo2 Hm2 Hop2.
+  rewrite get_tset in Hm2. destruct (N.eqb_spec m p) as [->|Hmp].
+  { rewrite Ho in Hm2. cbn [option_map] in Hm2. inversion Hm2; subst mo2. contradiction. }
+  destruct (HK m mo2 Hm2 Hop2) as (a0 & a1 & rest & a0o & a1o & v & K1 & K2 & K3 & K4 & K5 & K6 & K7 & K8 & K9).
+  assert (Ha0 : a0 <> p) by (intros ->; assert (a0o = o) by congruence; subst; rewrite Hop in K3; vm_compute in K3; discriminate).
+  assert (Ha1 : a1 <> p) by (intros ->; assert (a1o = o) by congruence; subst; rewrite Hop in K7; vm_compute in K7; discriminate).
+  exists a0, a1, rest, a0o, a1o, v. rewrite !get_tset.
+  apply N.eqb_neq in Ha0. apply N.eqb_neq in Ha1. rewrite Ha0, Ha1. repeat (split; [assumption|]). assumption.
+Qed.
+
+(** the last two passes keep the concrete Method typing *)
+Lemma TM3_TM s g : TM3 (p_tree s) g -> TM NoX s g.
+Proof.
+  intros H m mo Hm Hop _. destruct (H m mo Hm Hop) as (a0 & a1 & rest & a0o & a1o & v & K1 & K2 & K3 & K4 & K5 & K6 & K7 & K8 & K9).
+  exists a0, a1, rest, a0o, a1o, v. split; [exact K1|]. split; [exact K2|]. split; [apply (proj1 (row_facts_np a0o K4))|].
+  split; [exact K6|]. split; [exact K9|]. split; [apply (proj1 (row_facts_bp a1o K8))|]. unfold mx. auto.
+Qed.
+Lemma TM_TM3 s g : TM NoX s g -> TM3 (p_tree s) g.
+Proof.
+  intros H m mo Hm Hop. destruct (H m mo Hm Hop (fun F => F)) as (a0 & a1 & rest & a0o & a1o & v & K1 & K2 & _ & K4 & K5 & _ & (M1 & M2 & M3 & M4 & M5)).
+  exists a0, a1, rest, a0o, a1o, v. auto 12.
+Qed.
+
+(** ---- TM3 through the resolve loop: the abstract invariant [KS3] = [KS] /\ [TM3] ---- *)
+Definition KS3 (s : pstate) (g : ghost) : Prop := KS s g /\ TM3 (p_tree s) g.
+
+Lemma np_not_named (o : Obj) op fl af : o_infoIndex o = npIdx -> opInfo (o_infoIndex o) = Some (op, fl, af) -> hasFlag fl aml_pOpFlagNamed = false.
+Proof. intros E H. rewrite E in H. vm_compute in H. injection H as _ <- _. reflexivity. Qed.
+Lemma bp_not_named (o : Obj) op fl af : o_infoIndex o = bpIdx -> opInfo (o_infoIndex o) = Some (op, fl, af) -> hasFlag fl aml_pOpFlagNamed = false.
+Proof. intros E H. rewrite E in H. vm_compute in H. injection H as _ <- _. reflexivity. Qed.
+
+(** a rearrangement that keeps payloads (but for values outside the flags arguments) and the child lists of Methods and of their name paths *)
+Lemma TM3_step (t t2 : T) g g2 :
+  TM3 t g ->
+  (forall i o2, tget t2 i = Some o2 -> exists o, tget t i = Some o /\ sameobj o o2) ->
+  (forall i o, tget t i = Some o -> exists o2, tget t2 i = Some o2 /\ sameobj o o2) ->
+  (forall m mo a0 a1 rest a1o, tget t m = Some mo -> o_opcode mo = aml_pOpMethod -> kids g m = a0 :: a1 :: rest -> kids g a0 = [] ->
+     tget t a1 = Some a1o ->
+     (exists rest', kids g2 m = a0 :: a1 :: rest') /\ kids g2 a0 = [] /\ (forall a1o2, tget t2 a1 = Some a1o2 -> o_value a1o2 = o_value a1o)) ->
+  TM3 t2 g2.
+Proof.
+  intros H Hb Hf Hm m mo2 Hg2 Hop2. destruct (Hb m mo2 Hg2) as (mo & Hg & (E1 & _)).
+  assert (Hop : o_opcode mo = aml_pOpMethod) by congruence.
+  destruct (H m mo Hg Hop) as (a0 & a1 & rest & a0o & a1o & v & K1 & K2 & K3 & K4 & K5 & K6 & K7 & K8 & K9).
+  destruct (Hm m mo a0 a1 rest a1o Hg Hop K1 K5 K6) as ((rest' & K1') & K5' & Hv).
+  destruct (Hf a0 a0o K2) as (a0o2 & K2' & (F1 & F2 & _)). destruct (Hf a1 a1o K6) as (a1o2 & K6' & (G1 & G2 & _)).
+  exists a0, a1, rest', a0o2, a1o2, v. split; [exact K1'|]. split; [exact K2'|]. split; [congruence|]. split; [congruence|]. split; [exact K5'|].
+  split; [exact K6'|]. split; [congruence|]. split; [congruence|]. rewrite (Hv a1o2 K6'). exact K9.
+Qed.
+
+Lemma KS3_counters s g a b c : KS3 s g -> KS3 (with_counters s a b c) g.
+Proof. intros H. exact H. Qed.
+
+Lemma KS3_move s g c m tg (t2 : T) g2 : TI s g -> KS3 s g -> In m (kids g c) -> is_sb s c -> is_sb s tg ->
+  pframe (p_tree s) t2 -> shape_eq g g2 ->
+  (forall q, kids g2 q = (if q =? c then remove1 m (kids g c) else kids g q) ++ (if q =? tg then [m] else [])) ->
+  KS3 (with_tree s t2) g2.
+Proof.
+  intros HT (HKS & HTM) Hin Hc Htg Hpf S2 Hk. split; [apply (KS_move s g c m tg t2 g2 HT HKS Hin Hc Htg Hpf S2 Hk)|].
+  cbn [p_tree with_tree]. eapply TM3_step; [exact HTM|apply pframe_back; exact Hpf|apply pframe_fwd; exact Hpf|].
+  intros m' mo a0 a1 rest a1o Hm' Hop Hkm Hk0 Ha1.
+  assert (Hsame : forall q qo, tget (p_tree s) q = Some qo -> o_opcode qo <> aml_pOpIntScopeBlock -> kids g2 q = kids g q).
+  { intros q qo Hq Hne. rewrite Hk.
+    destruct (N.eqb_spec q c) as [->|_]; [exfalso; destruct Hc as (o' & Ho' & E); assert (o' = qo) by congruence; subst; contradiction|].
+    destruct (N.eqb_spec q tg) as [->|_]; [exfalso; destruct Htg as (o' & Ho' & E); assert (o' = qo) by congruence; subst; contradiction|].
+    apply app_nil_r. }
+  destruct (HTM m' mo Hm' Hop) as (b0 & b1 & r & b0o & b1o & w & K1 & K2 & K3 & _).
+  rewrite Hkm in K1. injection K1 as <- <- <-.
+  split; [exists rest; rewrite (Hsame m' mo Hm'); [exact Hkm|rewrite Hop; discriminate]|].
+  split; [rewrite (Hsame a0 b0o K2); [exact Hk0|rewrite K3; discriminate]|].
+  intros a1o2 Ha12. destruct (proj2 Hpf _ _ Ha1) as (o' & Ho' & E). assert (o' = a1o2) by congruence. subst.
+  destruct E as (_ & _ & _ & _ & _ & _ & _ & E8). exact E8.
+Qed.
+
+Lemma KS3_free s g y (t' : T) g' : TI s g -> KS3 s g -> glive g y -> kids g y = [] -> scoped s g y ->
+  fframe y (p_tree s) t' -> (forall p, kids g' p = remove1 y (kids g p)) ->
+  (forall z, glive g' z <-> glive g z /\ z <> y) -> (forall o', tget t' y = Some o' -> o_opcode o' = opFreed) ->
+  KS3 (with_tree s t') g'.
+Proof.
+  intros HT (HKS & HTM) Hly Hky Hsc Hff Hk Hl' Hfr. split; [apply (KS_free s g y t' g' HT HKS Hly Hky Hsc Hff Hk Hl' Hfr)|].
+  pose proof (ti_R _ _ HT) as HR. cbn [p_tree with_tree]. intros m mo2 Hg2 Hop2.
+  assert (Hmy : m <> y) by (intros ->; rewrite (Hfr _ Hg2) in Hop2; discriminate).
+  destruct (fframe_back _ _ _ Hff m mo2 Hmy Hg2) as (mo & Hg & (E1 & _)).
+  assert (Hop : o_opcode mo = aml_pOpMethod) by congruence.
+  destruct (HTM m mo Hg Hop) as (a0 & a1 & rest & a0o & a1o & v & K1 & K2 & K3 & K4 & K5 & K6 & K7 & K8 & K9).
+  assert (Hny : forall a ao, In a (kids g m) -> tget (p_tree s) a = Some ao -> o_opcode ao <> aml_pOpScope -> y <> a).
+  { intros a ao Hin Ha Hns ->. destruct Hsc as [(yo & Hyo & Eyo)|(d & dobj & Hind & Hd & Ed)].
+    - assert (yo = ao) by congruence. subst. contradiction.
+    - assert (d = m) by (eapply (R_parent_unique _ _ HR); eauto). subst d. assert (dobj = mo) by congruence. subst.
+      rewrite Hop in Ed. discriminate. }
+  assert (H0 : y <> a0) by (apply (Hny a0 a0o); [rewrite K1; left; reflexivity|exact K2|rewrite K3; discriminate]).
+  assert (H1 : y <> a1) by (apply (Hny a1 a1o); [rewrite K1; right; left; reflexivity|exact K6|rewrite K7; discriminate]).
+  destruct (proj2 Hff _ _ K2) as (a0o2 & K2' & _ & F0). destruct (proj2 Hff _ _ K6) as (a1o2 & K6' & V1 & F1).
+  destruct (F0 (not_eq_sym H0)) as (A1 & A2 & _). destruct (F1 (not_eq_sym H1)) as (B1 & B2 & _).
+  exists a0, a1, (remove1 y rest), a0o2, a1o2, v. split; [rewrite Hk, K1; apply remove1_two; auto|].
+  split; [exact K2'|]. split; [congruence|]. split; [congruence|]. split; [rewrite Hk, K5; reflexivity|].
+  split; [exact K6'|]. split; [congruence|]. split; [congruence|]. rewrite V1. exact K9.
+Qed.
+
+Lemma KS3_reloc s g x xo op fl af par tg (t2 : T) g2 v :
+  TI s g -> KS3 s g -> tget (p_tree s) x = Some xo -> opInfo (o_infoIndex xo) = Some (op, fl, af) ->
+  hasFlag fl aml_pOpFlagNamed = true -> o_opcode xo <> aml_pOpIntScopeBlock -> o_tableHandle xo = p_handle s ->
+  In x (kids g par) -> is_sb s tg -> glive g tg -> kids g x <> [] ->
+  pframe (p_tree s) t2 -> shape_eq g g2 -> roots_iff g g2 ->
+  (forall q, kids g2 q = (if q =? par then remove1 x (kids g par) else kids g q) ++ (if q =? tg then [x] else [])) ->
+  KS3 (with_tree s (tset t2 (hd InvalidIndex (kids g x)) (set_value v))) g2.
+Proof.
+  intros HT (HKS & HTM) Hxo Erow Enamed Hnsb Hh Hin Htg Hltg Hkx Hpf S2 R2 Hk.
+  split; [apply (KS_reloc s g x xo op fl af par tg t2 g2 v HT HKS Hxo Erow Enamed Hnsb Hh Hin Htg Hltg Hkx Hpf S2 R2 Hk)|].
+  pose proof (ti_R _ _ HT) as HR.
+  set (n := hd InvalidIndex (kids g x)).
+  assert (Hn_in : In n (kids g x)) by (unfold n; destruct (kids g x); [contradiction|left; reflexivity]).
+  assert (Hback : forall i o2, tget (tset t2 n (set_value v)) i = Some o2 -> exists o, tget (p_tree s) i = Some o /\ sameobj o o2).
+  { intros i o2 Hg. rewrite get_tset in Hg. destruct (N.eqb_spec i n) as [->|Hne].
+    - destruct (tget t2 n) as [o'|] eqn:E2; [|discriminate]. cbn [option_map] in Hg. inversion Hg; subst o2.
+      destruct (pframe_back _ _ Hpf n o' E2) as (o & Ho & So). exists o. split; [exact Ho|exact So].
+    - apply (pframe_back _ _ Hpf i o2 Hg). }
+  assert (Hfwd : forall i o, tget (p_tree s) i = Some o -> exists o2, tget (tset t2 n (set_value v)) i = Some o2 /\ sameobj o o2 /\
+                                                              (i <> n -> o_value o2 = o_value o)).
+  { intros i o Ho. destruct (proj2 Hpf _ _ Ho) as (o' & Ho' & E). rewrite get_tset, Ho'. cbn [option_map].
+    destruct (N.eqb_spec i n) as [->|Hne].
+    - eexists. split; [reflexivity|]. split; [apply (pay_same _ _ E)|intros F; contradiction].
+    - exists o'. split; [reflexivity|]. split; [apply pay_same; exact E|]. intros _. destruct E as (_ & _ & _ & _ & _ & _ & _ & E8). exact E8. }
+  cbn [p_tree with_tree]. eapply TM3_step; [exact HTM|exact Hback| |].
+  - intros i o Ho. destruct (Hfwd i o Ho) as (o2 & Ho2 & So & _). eauto.
+  - intros m mo a0 a1 rest a1o Hm Hop Hkm Hk0 Ha1.
+    destruct (HTM m mo Hm Hop) as (b0 & b1 & r & b0o & b1o & w & K1 & K2 & K3 & K4 & K5 & K6 & K7 & K8 & K9).
+    rewrite Hkm in K1. injection K1 as <- <- <-.
+    assert (Hx0 : x <> a0).
+    { intros ->. assert (b0o = xo) by congruence. subst. rewrite (np_not_named _ _ _ _ K4 Erow) in Enamed. discriminate. }
+    assert (Hx1 : x <> a1).
+    { intros ->. assert (b1o = xo) by congruence. subst. rewrite (bp_not_named _ _ _ _ K8 Erow) in Enamed. discriminate. }
+    assert (Emt : (m =? tg) = false) by (apply N.eqb_neq; intros ->; exact (is_sb_not_method s tg mo Htg Hm Hop)).
+    split; [|split].
+    + rewrite Hk, Emt, app_nil_r. destruct (N.eqb_spec m par) as [->|_]; [|exists rest; exact Hkm].
+      rewrite Hkm. rewrite remove1_two; auto. eexists. reflexivity.
+    + rewrite Hk.
+      assert (E0p : (a0 =? par) = false) by (apply N.eqb_neq; intros ->; rewrite Hk0 in Hin; contradiction).
+      assert (E0t : (a0 =? tg) = false).
+      { apply N.eqb_neq. intros ->. destruct Htg as (o' & Ho' & E). assert (o' = b0o) by congruence. subst. rewrite K3 in E. discriminate. }
+      rewrite E0p, E0t, app_nil_r. exact Hk0.
+    + intros a1o2 Ha12. destruct (Hfwd a1 a1o Ha1) as (o2 & Ho2 & _ & Hv). assert (o2 = a1o2) by congruence. subst. apply Hv.
+      intros E.
+      assert (Exm : x = m).
+      { eapply (R_parent_unique _ _ HR); [exact Hn_in|]. rewrite <- E, Hkm. right. left. reflexivity. }
+      assert (E' : a1 = a0) by (rewrite E; unfold n; rewrite Exm, Hkm; reflexivity).
+      assert (Hlmo : o_opcode mo <> opFreed) by (rewrite Hop; discriminate).
+      destruct (R_kids _ _ HR _ _ Hm Hlmo) as (_ & _ & _ & Hnd). rewrite Hkm in Hnd.
+      apply NoDup_cons_iff in Hnd. destruct Hnd as (Hni & _). apply Hni. left. exact E'.
+Qed.
+
+Lemma KS3_loop : forall wf fuel s g, MI KS3 NoX s g ->
+  wp True (resolve_loop fuel wf) s (fun _ s' => exists g', MI KS3 NoX s' g').
+Proof. exact (resolve_loop_MI KS3 KS3_counters KS3_move KS3_free KS3_reloc). Qed.
+
